@@ -20,10 +20,12 @@ func init() {
 
 func runC01(c *core.Ctx) {
 	runFixtures(c, "valid")
-	c.Explain("Differential equivalence with package os over histories is not decidable statically. Decided, exhaustively over a finite space: (R01.1) the flag decision table of the key-value FS's OpenFile — for all 48 flag values (3 access modes x O_APPEND/O_CREATE/O_EXCL/O_TRUNC, constants of the loaded target) x {target missing with parent a directory / parent missing / parent a regular file; target a regular file; target a directory} = 240 cells the single feasible path through the function is followed by evaluating its flag tests as constants and its look-up tests from the situation, and the outcome (handle kind by control dependence of the wrapper constructed, create reached, truncate reached, or the sentinel of the returned error) must equal the reference table of os.OpenFile; a test the evaluator cannot classify makes the cell undecided (= failure); (R01.2) permission masking: every value that reaches the mode of a newly built record from a perm/mode parameter of Mkdir, MkdirAll, OpenFile crosses '& const' with const within ModePerm, Chmod's stored mode crosses '& const' within ModePerm|Setuid|Setgid|Sticky, and directory records are or-ed with ModeDir — invisible to the suite, which compares modes under a zero mask. Existence/kind preconditions of the other mutations are C03's. NOT claimed: results, data and trees equal to os over histories; Rename/Remove/RemoveAll semantics beyond C03; modification times.")
+	c.Explain("Differential equivalence with package os over histories is not decidable statically. Decided, exhaustively over a finite space: (R01.1) the flag decision table of the key-value FS's OpenFile — for all 48 flag values (3 access modes x O_APPEND/O_CREATE/O_EXCL/O_TRUNC, constants of the loaded target) x {target missing with parent a directory / parent missing / parent a regular file; target a regular file; target a directory} = 240 cells the single feasible path through the function is followed by evaluating its flag tests as constants and its look-up tests from the situation, and the outcome (handle kind by control dependence of the wrapper constructed, create reached, truncate reached, or the sentinel of the returned error) must equal the reference table of os.OpenFile; a test the evaluator cannot classify makes the cell undecided (= failure); (R01.2) permission masking: every value that reaches the mode of a newly built record from a perm/mode parameter of Mkdir, MkdirAll, OpenFile crosses '& const' with const within ModePerm, Chmod's stored mode crosses '& const' within ModePerm|Setuid|Setgid|Sticky, and directory records are or-ed with ModeDir — invisible to the suite, which compares modes under a zero mask. (R01.3) every strings.HasPrefix relating two names in package keyvalue (Rename's 'moved into itself' guard) uses a prefix ending in '/' — os compares path elements, so Rename(\"lib\", \"lib64/lib\") must not be refused; (R01.4) every nil return of the key-value MkdirAll lies on a path that passed the success edge of the ancestor classifier (which answers a regular file anywhere in the chain, the leaf included, with ErrNotDir) or an IsDir()-true test of a look-up of the path — os.MkdirAll succeeds only if the path is a directory afterwards; R01.1 also evaluates, one level deep, the flag tests inside the handle's Truncate that OpenFile calls for O_TRUNC. Existence/kind preconditions of the other mutations are C03's. NOT claimed: results, data and trees equal to os over histories; Rename/Remove/RemoveAll semantics beyond C03; modification times.")
 	c.Assume("reference table of os.OpenFile semantics frozen in the checker (documented in DESIGN.md §3 C01)")
 	c.RuleDoc("R01.1", "OpenFile flag decision table, exhaustive over 240 cells")
 	c.RuleDoc("R01.2", "permission masking on create and chmod")
+	c.RuleDoc("R01.3", "name relations in the key-value FS are tested on path-element boundaries")
+	c.RuleDoc("R01.4", "MkdirAll reports success only after the path's ancestors and the path itself were classified")
 	for _, p := range c.Progs {
 		c.SetProg(p)
 		sh := findKVShape(p)
@@ -33,9 +35,13 @@ func runC01(c *core.Ctx) {
 		}
 		r01Table(c, p, sh)
 		r01Perm(c, p, sh)
+		boundaryTests(c, p, "R01.3", "keyvalue")
+		r01MkdirAll(c, p, sh)
 	}
 	c.Floor("R01.1", 240)
 	c.Floor("R01.2", 4)
+	c.Floor("R01.3", 1)
+	c.Floor("R01.4", 1)
 }
 
 type openSituation struct {
@@ -257,6 +263,7 @@ func r01Eval(sh *kvShape, fn *ssa.Function, nameP, flagP *ssa.Parameter, flag in
 	paths := 0
 	var results []openOutcome
 	undecidedWhy := ""
+	calleeErr := ""
 	ssax.EnumPaths(fn, fn.Blocks[0], 0, nil, ssax.PathHooks{
 		EvalCond: func(s *ssax.PathState, cond ssa.Value) (bool, bool) {
 			// integer comparisons over the flag
@@ -336,6 +343,13 @@ func r01Eval(sh *kvShape, fn *ssa.Function, nameP, flagP *ssa.Parameter, flag in
 			}
 			if truncFn[callee] || (callee != nil && callee.Name() == "TruncateFile") {
 				s.Counts["trunc"] = 1
+				// the callee's own flag tests, evaluated for this cell's flag (one level deep)
+				if truncFn[callee] && sit.target != "dir" {
+					if cls := r01CalleeErr(callee, flag, sit); cls != "" {
+						calleeErr = cls
+						s.Counts["calleeerr"] = 1
+					}
+				}
 				// truncating a directory handle fails with ErrIsDir (guard in the file's Truncate, R02.2)
 				if sit.target == "dir" {
 					s.Counts["truncdir"] = 1
@@ -350,6 +364,8 @@ func r01Eval(sh *kvShape, fn *ssa.Function, nameP, flagP *ssa.Parameter, flag in
 			if !ssax.IsNilConst(ev) {
 				if s.Counts["truncdir"] == 1 {
 					o.errClass = "ErrIsDir"
+				} else if s.Counts["calleeerr"] == 1 && callProducing(ev) != nil {
+					o.errClass = calleeErr + " (from the handle's Truncate under this flag)"
 				} else if cl := callProducing(ev); cl != nil && s.Counts["trunc"] == 1 && sit.target != "dir" {
 					// wrapperErr(open, name, Truncate(0)): nil when truncation of a regular file succeeds
 					o.errClass = ""
@@ -403,6 +419,118 @@ func r01Eval(sh *kvShape, fn *ssa.Function, nameP, flagP *ssa.Parameter, flag in
 		return out
 	}
 	return results[0]
+}
+
+// r01CalleeErr evaluates a method of the opened handle (Truncate) for the cell's flag: tests of the handle's flag
+// field are constants, size is the constant argument 0, the handle is open and a regular file, every other error
+// is assumed nil (fault-free). If the unique fully decided path returns a non-nil error, its class is returned.
+func r01CalleeErr(callee *ssa.Function, flag int64, sit openSituation) string {
+	if callee == nil || callee.Blocks == nil || len(callee.Params) == 0 {
+		return ""
+	}
+	recv := callee.Params[0]
+	isFlagLoad := func(v ssa.Value) bool {
+		b, idx, ok := ssax.FieldLoad(v)
+		if !ok || b != ssa.Value(recv) {
+			return false
+		}
+		st, ok := recv.Type().(*types.Pointer)
+		if !ok {
+			return false
+		}
+		str, ok := st.Elem().Underlying().(*types.Struct)
+		return ok && idx < str.NumFields() && str.Field(idx).Name() == "flag"
+	}
+	var evalInt func(s *ssax.PathState, v ssa.Value) (int64, bool)
+	evalInt = func(s *ssax.PathState, v ssa.Value) (int64, bool) {
+		v = ssax.StripIntConv(s.Resolve(v))
+		if k, ok := ssax.ConstInt(v); ok {
+			return k, true
+		}
+		if isFlagLoad(v) {
+			return flag, true
+		}
+		if len(callee.Params) > 1 && v == ssa.Value(callee.Params[1]) {
+			return 0, true // Truncate(0)
+		}
+		if bo, ok := v.(*ssa.BinOp); ok {
+			x, ok1 := evalInt(s, bo.X)
+			y, ok2 := evalInt(s, bo.Y)
+			if ok1 && ok2 {
+				switch bo.Op {
+				case token.AND:
+					return x & y, true
+				case token.OR:
+					return x | y, true
+				case token.AND_NOT:
+					return x &^ y, true
+				}
+			}
+		}
+		return 0, false
+	}
+	var classes []string
+	undecidedPaths := 0
+	ssax.EnumPaths(callee, callee.Blocks[0], 0, nil, ssax.PathHooks{
+		EvalCond: func(s *ssax.PathState, cond ssa.Value) (bool, bool) {
+			if bo, ok := cond.(*ssa.BinOp); ok {
+				x, ok1 := evalInt(s, bo.X)
+				y, ok2 := evalInt(s, bo.Y)
+				if ok1 && ok2 {
+					switch bo.Op {
+					case token.EQL:
+						return x == y, true
+					case token.NEQ:
+						return x != y, true
+					case token.LSS:
+						return x < y, true
+					case token.LEQ:
+						return x <= y, true
+					case token.GTR:
+						return x > y, true
+					case token.GEQ:
+						return x >= y, true
+					}
+				}
+				if v, eq, isNil := ssax.NilTest(bo); isNil {
+					if ssax.IsErrorType(v.Type()) {
+						return eq, true // fault-free
+					}
+					return !eq, true // pointers of an open handle are set
+				}
+			}
+			if cl, ok := cond.(*ssa.Call); ok && isIsDirCall(cl) {
+				return false, true
+			}
+			return false, false
+		},
+		Branch: func(s *ssax.PathState, cond ssa.Value, taken bool) { s.Counts["undecided"] = 1 },
+		End: func(s *ssax.PathState, last ssa.Instruction) {
+			if s.Counts["undecided"] == 1 {
+				undecidedPaths++
+				return
+			}
+			r := last.(*ssa.Return)
+			ev := s.Resolve(r.Results[len(r.Results)-1])
+			if ssax.IsNilConst(ev) || callProducing(ev) != nil && classifyErr(ev).Sentinels["nil"] {
+				classes = append(classes, "")
+				return
+			}
+			info := classifyErr(ev)
+			var ss []string
+			for k := range info.Sentinels {
+				if k != "nil" {
+					ss = append(ss, k)
+				}
+			}
+			sort.Strings(ss)
+			classes = append(classes, strings.Join(ss, ","))
+		},
+	})
+	if undecidedPaths == 0 && len(classes) == 1 {
+		return classes[0]
+	}
+	return ""
 }
 
 // r01LookupErrClass: the returned error wraps the error of a look-up: its class follows from the situation.
@@ -632,4 +760,81 @@ func userBits(p *load.Program, fn *ssa.Function, v ssa.Value, depth int, seen ma
 		return bits, ""
 	}
 	return 0, fmt.Sprintf("is computed by %T, which the analysis does not track", v)
+}
+
+// r01MkdirAll (R01.4): success of MkdirAll implies the classifier's verdict.
+func r01MkdirAll(c *core.Ctx, p *load.Program, sh *kvShape) {
+	fn := sh.methods["MkdirAll"]
+	if fn == nil || len(fn.Params) < 2 {
+		c.Hard("anchor: keyvalue.FS.MkdirAll")
+		return
+	}
+	pathP := ssa.Value(fn.Params[1])
+	var classifierErrs []ssa.Value
+	ssax.Instrs(fn, func(ins ssa.Instruction) {
+		cl, ok := ins.(*ssa.Call)
+		if !ok {
+			return
+		}
+		callee := ssax.StaticCallee(cl)
+		if callee == nil || !p.InModule(callee) || !isAncestorClassifier(p, callee) {
+			return
+		}
+		uses := false
+		for _, a := range cl.Call.Args {
+			if a == pathP {
+				uses = true
+			}
+		}
+		if ev := ssax.ErrorValueOf(cl); uses && ev != nil {
+			classifierErrs = append(classifierErrs, ev)
+		}
+	})
+	key := fname(fn) + "|success-implies-directory"
+	if len(classifierErrs) == 0 {
+		c.Bad("R01.4", key, p.Pos(fn.Pos()), fmt.Sprintf("%s does not classify the ancestors of its path (no call of a function that walks path.Dir and can answer ErrNotDir)", fname(fn)))
+		return
+	}
+	var badRet ssa.Instruction
+	complete := ssax.EnumPaths(fn, fn.Blocks[0], 0, nil, ssax.PathHooks{
+		Branch: func(s *ssax.PathState, cond ssa.Value, taken bool) {
+			cnd, val := ssax.StripNot(cond, taken)
+			if x, eq, ok := ssax.NilTest(cnd); ok && eq == val {
+				for _, ev := range classifierErrs {
+					if s.Resolve(x) == ev || x == ev {
+						s.Counts["classified"] = 1
+					}
+				}
+			}
+			if cl, ok := cnd.(*ssa.Call); ok && val && isIsDirCall(cl) {
+				var recv ssa.Value
+				if cl.Call.IsInvoke() {
+					recv = cl.Call.Value
+				} else if len(cl.Call.Args) > 0 {
+					recv = cl.Call.Args[0]
+				}
+				if lp := sh.lookupPathOf(recv, 0); lp != nil && lp == pathP {
+					s.Counts["classified"] = 1
+				}
+			}
+		},
+		End: func(s *ssax.PathState, last ssa.Instruction) {
+			r, ok := last.(*ssa.Return)
+			if !ok || len(r.Results) == 0 {
+				return
+			}
+			ev := s.Resolve(r.Results[len(r.Results)-1])
+			if (ssax.IsNilConst(ev) || s.NilOf(ev) == ssax.IsNil) && s.Counts["classified"] == 0 && badRet == nil {
+				badRet = r
+			}
+		},
+	})
+	switch {
+	case !complete:
+		c.Unknown("R01.4", key, p.Pos(fn.Pos()), "path enumeration exceeded its cap")
+	case badRet != nil:
+		c.Bad("R01.4", key, p.Pos(badRet.Pos()), fmt.Sprintf("%s returns nil on a path that never passed the ancestor classifier's success edge nor an IsDir() test of the path: MkdirAll succeeds although the path (or an ancestor) may be a regular file — os.MkdirAll fails with ENOTDIR", fname(fn)))
+	default:
+		c.OK("R01.4", key, p.Pos(fn.Pos()), "every nil return follows the classifier's success (a regular file anywhere in the chain is answered with ErrNotDir)")
+	}
 }
